@@ -3,9 +3,11 @@
    worker's status word, curProcessing and the length of j's queue; everything else through
    counters. [DReachable s] = some event list (any number of jobs, dispatchers, barrier
    callers, any interleaving) leads to s. The "returns once its condition holds" half (no
-   missed wake-up) is a progress statement: see C03 and the exact-quiescence monitor. *)
-From Coq Require Import List Arith.
-From VQ Require Import SliceDisp SliceDispProofs.
+   missed wake-up) is stated on coq/SliceBarrier.v (who is on the hook to broadcast when a step
+   ends the callers' wait); that the owner gets to act is the progress property C03 and is
+   observed by the exact-quiescence monitor. *)
+From Coq Require Import List Arith Bool.
+From VQ Require Import SliceDisp SliceDispProofs SliceBarrier SliceBarrierProofs.
 Import ListNotations.
 
 (* An accepted job is always visible to the barrier: in its queue (counted by that queue's
@@ -39,6 +41,43 @@ Theorem C06_pause_and_wait_exact :
   forall s, DReachable s -> cur s = 0 -> jl s <> JRun /\ jl s <> JDisp /\ jl s <> JFin.
 Proof. exact barrier_exact. Qed.
 Print Assumptions C06_pause_and_wait_exact.
+
+(* No missed wake-up. A caller sleeps while  running: Len > 0 || curProcessing > 0;  paused /
+   stopped: curProcessing > 0  holds. Once a step has turned that condition false and nobody has
+   broadcast since ([bstale]), somebody is on the hook: a thread holds a new obligation (it goes
+   on to call releaseWaiters, to broadcast, or to notify the event loop, whose pass ends in
+   releaseWaiters), or the buffered signal carries one to the event loop. For every event list:
+   any number of completions, hand-backs, purges, Pause / Resume / Stop / Restart, notifies. *)
+Theorem C06_somebody_is_on_the_hook :
+  forall s, BReachable s -> bstale s = true ->
+    has_new (bobs s) = true \/ (bsig s = true /\ bsignew s = true).
+Proof. exact stale_has_owner. Qed.
+Print Assumptions C06_somebody_is_on_the_hook.
+
+(* The step that ends the wait leaves its own thread holding an obligation (the model refuses a
+   step that makes the condition false and walks away — as Stop's status store did before the
+   repair 8cf7f56, or a completion under status stopped). *)
+Theorem C06_step_that_ends_the_wait_takes_the_obligation :
+  forall s t st' cur' len' k s',
+    wbstep s (WInput t st' cur' len' k) = Some s' -> wcond s = true -> wcond s' = false ->
+    holds_obl t (bobs s') = true /\ bstale s' = true.
+Proof. exact falsifying_step_takes_obligation. Qed.
+Print Assumptions C06_step_that_ends_the_wait_takes_the_obligation.
+
+(* With nobody left holding anything and no signal buffered, no caller has been left behind. *)
+Theorem C06_nobody_left_behind_at_rest :
+  forall s, BReachable s -> b_at_rest s = true -> bstale s = false.
+Proof. exact at_rest_not_stale. Qed.
+Print Assumptions C06_nobody_left_behind_at_rest.
+
+Example C06_example_wakeup :
+  match wbrun (wbinit 0) [WInput 0 1 0 0 ONotify; WNotify 0; WRecv 1; WInput 0 1 0 1 ONotify; WInput 1 1 1 1 ONone;
+                          WNotify 0; WInput 1 1 1 0 ONone; WInput 2 1 0 0 OEval; WBroadcast 2; WRWNoBcast 1] with
+  | Some s => bstale s = false /\ bobs s = [] /\ wcond s = false
+  | None => False
+  end
+  /\ wbrun (wbinit 0) [WInput 0 1 0 0 ONotify; WNotify 0; WRecv 1; WInput 0 1 1 0 ONone; WInput 2 1 0 0 ONone] = None.
+Proof. vm_compute. repeat split. Qed.
 
 (* non-vacuity: j is accepted, reserved for, dequeued, run, released; a barrier read in between sees it *)
 Example C06_example :
